@@ -57,7 +57,9 @@ def dispatch(shim, per_shaper=2):
         if not name or name.startswith("panic") or " " in name:
             continue
         ent = res.setdefault(name, [])
-        if len(ent) < per_shaper and all(e[0] != s for e in ent):
+        # (the hook names a record by a few of its fields: Hebrew's record is reported as `default`; the well-known scripts
+        # are therefore all kept, whatever the number of scripts their shaper already has)
+        if (len(ent) < per_shaper or (t is None and s in PREFER)) and all(e[0] != s for e in ent):
             ent.append((s, struct.pack(">I", t).decode("latin-1") if t is not None else None, by[s]))
     _dispatch[shim] = res
     return res
